@@ -57,8 +57,14 @@ def check(rep, tier, seed):
     for h in hs + longer:
         for pr in (PROJS_RUN if tier == "thorough" or len(h) > 3 else rng.sample(PROJS_RUN, 3)):
             recs_h = [CLASSES[c] for c in h]
+            # where a record stands is no part of what it contributes: consecutive records share their POS across a
+            # contig boundary (chr1:7, chr2:7, chr1:7, ...) in every third run, and within a contig (a site split over
+            # several records) in another third
+            lay = len(runs) % 3
+            ctg = [("chr1" if i % 2 == 0 else "chr2") for i in range(len(h))] if lay == 1 else None
+            pos = [7] * len(h) if lay == 1 else ([1 + i // 2 for i in range(len(h))] if lay == 2 else None)
             runs.append(("create 0 %s %s %s %s" % (",".join(COLS), model_samples(SM), model_project(pr), model_records(recs_h)),
-                         ["create", "--precision", "12"] + cli_samples_arg(SM) + cli_project_arg(pr), render_vcf(COLS, recs_h)))
+                         ["create", "--precision", "12"] + cli_samples_arg(SM) + cli_project_arg(pr), render_vcf(COLS, recs_h, contigs=ctg, positions=pos)))
     exps = run_model([r[0] for r in runs])
     outs = run_cli_many([(r[1], r[2]) for r in runs])
     for (mc, argv, vcf), exp, (rc, so, se) in zip(runs, exps, outs):
@@ -85,10 +91,18 @@ def check(rep, tier, seed):
             # boundary targets: some populations projected away entirely (length 1), the others kept or reduced
             pr = ("s", [1 if rng.random() < 0.5 else rng.randrange(1, 2 * n + 2) for n in pop_sizes(sm)])
         cut = rng.randrange(0, len(recs) + 1)
-        perm = recs[:]; rng.shuffle(perm)
         argv = ["create", "--precision", "12"] + cli_samples_arg(sm) + cli_project_arg(pr)
-        for part in (recs, recs[:cut], recs[cut:], perm):
-            jobs.append((argv, render_vcf(cols, part)))
+        # positions: two contigs, the second starting at the POS the first ended on; now and then the same POS twice in a row
+        npos, p_, where = [], 0, []
+        for i in range(len(recs)):
+            p_ += 0 if (i > 0 and rng.random() < 0.25) else 1
+            npos.append(p_)
+        split = rng.randrange(0, len(recs) + 1)
+        where = [("chr1", npos[i]) if i < split else ("chr2", npos[i] - (npos[split] - npos[split - 1] if 0 < split < len(recs) else 0) if split > 0 else npos[i]) for i in range(len(recs))]
+        order = list(range(len(recs))); rng.shuffle(order)
+        perm = [recs[i] for i in order]
+        for part, idxs in ((recs, range(len(recs))), (recs[:cut], range(cut)), (recs[cut:], range(cut, len(recs))), (perm, order)):
+            jobs.append((argv, render_vcf(cols, part, contigs=[where[i][0] for i in idxs], positions=[where[i][1] for i in idxs])))
         meta.append((argv, cols, recs, cut, pr))
     res = run_cli_many(jobs)
     for i, (argv, cols, recs, cut, pr) in enumerate(meta):
